@@ -381,6 +381,9 @@ func (p *program) parseArgs(args []string) error {
 	if _, err := linter.ParseGoVersion(p.goVersion); err != nil {
 		return fmt.Errorf("-go: %w", err)
 	}
+	if p.concurrency < 1 {
+		return fmt.Errorf("-concurrency: invalid value %d: must be at least 1", p.concurrency)
+	}
 
 	p.packages = p.flagSet.Args()
 	p.filters.enable = strings.Split(*enable, ",")
